@@ -29,6 +29,7 @@ type JobSpec struct {
 	Params     map[string]int    `json:"params"`
 	Math       bool              `json:"math"`
 	NoIfConv   bool              `json:"noifconv"`
+	FloatSplit bool              `json:"floatsplit"`
 	Sched      string            `json:"sched"`
 	Preempt    int               `json:"preempt"`
 	MaxPaths   int               `json:"max_paths"`
@@ -133,7 +134,7 @@ func main() {
 			defer func() { <-sem }()
 			js := spec.Jobs[k]
 			job := interp.Job{
-				Package: js.Package, Func: js.Func, Params: js.Params, Math: js.Math, NoIfConv: js.NoIfConv,
+				Package: js.Package, Func: js.Func, Params: js.Params, Math: js.Math, NoIfConv: js.NoIfConv, FloatSplit: js.FloatSplit,
 				Sched: js.Sched, Preempt: js.Preempt, Witnesses: js.Witnesses, KnownIDs: js.KnownIDs,
 				Solver: js.Solver, InitAllow: js.InitAllow, Models: js.Models, Trace: js.Trace, SolverLog: js.SolverLog, OneShotMin: js.OneShotMin, FSModel: js.FSModel, MaxFaults: js.MaxFaults,
 			}
